@@ -85,6 +85,8 @@ def jobs(tier, seed):
         for i, sf in enumerate('fgh'):
             if p == 2 and sf == 'g':
                 continue    # 1/g**2 in seven scales: feasibility queries take minutes; g stays concrete here
+            if p == 3 and sf == 'g':
+                continue    # the fourth program has no g
             out.append({'fn': 'conv_user', 'cfg': {'prog': p, 'flav': flavs[(p + i) % 2], 'symfac': sf}})
     # canaries: same harness, one obligation negated
     out.append({'fn': 'conv_with_converter', 'cfg': {}})
@@ -286,7 +288,30 @@ def _prog_term_mixed(E, f, g, h):
     return W, [w0, w1, w2, w3, w4, w5, w6, w7, w8], S
 
 
-USER_PROGRAMS = [_prog_chain, _prog_derived, _prog_term_mixed]
+def _prog_named(E, f, g, h):
+    """units that share their descriptive name (US / imperial gallon) or have none; two-item terms written unit first,
+    number second, with different exponents (square of the base type)"""
+    from decimalfp import Decimal
+    from quantity.term import Term
+    X = _mk_cls('XLen', ref_unit_symbol='x0', ref_unit_name='Ell')
+    x0 = X.ref_unit
+    g1 = X.new_unit('gus', 'Gallon', f * x0)
+    g2 = X.new_unit('gim', 'Gallon', h * x0)
+    g3 = X.new_unit('gx', 'Ell', Decimal(5) * x0)              # the name of the reference unit again
+    g4 = X.new_unit('gy', None, Term(((x0, 1), (Decimal(12), 1))))       # unit first, number second
+    A = _mk_cls('XArea', define_as=X ** 2)
+    a0 = A.ref_unit
+    a1 = A.new_unit('xare', 'Are', Term(((x0, 2), (Decimal(100), 1))))   # exponents 2 and 1
+    a2 = A.new_unit('xare2', 'Are', Term(((Decimal(100), 1), (x0, 2))))
+    a3 = A.new_unit('xsq', None, Term(((g4, 2), (Decimal(3), -1))))      # 144 / 3
+    a4 = A.new_unit('xsq2', None, Term(((x0, 2), (7, 3))))               # int with exponent 3 after the unit
+    which = E.choice('type', ['length', 'area'])
+    if which == 'length':
+        return X, [x0, g1, g2, g3, g4], {x0: 1, g1: f, g2: h, g3: 5, g4: 12}
+    return A, [a0, a1, a2, a3, a4], {a0: 1, a1: 100, a2: 100, a3: 48, a4: 343}
+
+
+USER_PROGRAMS = [_prog_chain, _prog_derived, _prog_term_mixed, _prog_named]
 
 
 def _mk_cls(name, **kw):
